@@ -560,7 +560,8 @@ PROP = Prop(
         "extract/evaluator.py: the reader of the handler source text (inspect + ast) and the "
         "meaning lean/PV/Model/EvalTable.lean gives to the handler language (both exercised by the "
         "table-eval / table-dispatch streams against the real evaluator)",
-        "floats/complex are outside the exact model (model abstains); numpy arrays not modelled",
+        "floats/complex are outside the exact model (model abstains); numpy object arrays are modelled as "
+        "(shape, row-major entries) with the handler body recognised by shape (array_handler_current)",
     ],
     level_text="Lean theorems (unbounded in tree depth, arity and history length): the evaluator as "
                "coded, plain or memoizing, with its CSE cache, returns exactly the compositional "
@@ -572,10 +573,14 @@ PROP = Prop(
                "order, fold start values, lazy branches, call order, caches are read from the "
                "source). The model is tied to the code by an "
                "exhaustive CPython operator box and by ~27k random/exhaustive-small evaluations "
-               "per quick run through all four entry points.",
+               "per quick run through all four entry points. numpy object arrays: the handler is "
+               "re-read from the source (array_handler_current), arrays mean their entries in "
+               "row-major order with the same shape (array_eq_den_current), the memoizing "
+               "evaluator raises on them (array_cached_raises_current, known finding); arrays "
+               "stream through the compiled table interpreter.",
     level_note="Trusted: Lean kernel (+ propext, Classical.choice, Quot.sound); PyNum as a model of "
                "CPython int/bool/Fraction arithmetic (validated exhaustively on a value box each "
-               "run); the S-expression harness. Floats/complex/numpy are outside the exact model "
+               "run); the S-expression harness. Floats/complex/numpy scalars are outside the exact model "
                "(model abstains). Theorems assume a coherent universe (no two `==`-but-different "
                "subterms such as 1 vs True in one history) and no Python lists (known finding).",
     technique="Lean 4 simulation proof (stateful evaluator refines denotation) + differential "
